@@ -297,6 +297,7 @@ func runC17(c *Ctx) {
 	guard := m.guard
 	c.Note("model", map[string]string{"collector": m.T, "records": m.acT, "start_time_field": m.timeField, "open_count_field": m.cntField, "start_entries": names(m.starts), "stop_entries": names(m.stops)})
 	ruleClock(c, m, "CLOCK")
+	ruleServiceOptions(c, "STOPCALL", "service.WithMetrics", "its authenticated connections and associations never start or stop a tunnel, so their tunnel time is not counted")
 	ruleKeyAddr(c, m, "PAIR")
 	// every UDP tunnel that was started is stopped: the association's removal is reported exactly once, whoever ends it
 	ruleTeardown(c, "STOPCALL")
